@@ -39,6 +39,10 @@ static void mutable_checks(Dune::ReservedVector<T, n>& v, std::string& flags)
   if (!t1 || !t2) flags += "!at";
   std::ostringstream os; os << c; std::string exp; for (int x : a) exp += std::to_string(x) + "  ";
   if (os.str() != exp) flags += "!print";
+  // STREAM STATE: every element is formatted the way the stream formats an element (basefield, showbase, uppercase, showpos)
+  std::ostringstream os2; os2 << std::hex << std::showbase << std::uppercase << std::showpos << c; std::string exp2;
+  for (int x : a) { std::ostringstream e; e << std::hex << std::showbase << std::uppercase << std::showpos << x; exp2 += e.str() + "  "; }
+  if (os2.str() != exp2) flags += "!printfmt";
 }
 
 template<class T, int n>
@@ -85,6 +89,13 @@ static void run_t(const std::vector<std::string>& ops)
     else if (t[0] == "asg") v = V[1 - i];
     else if (t[0] == "at") {
       try { at = std::to_string((int) v.at((std::size_t) c11::num(t[2]))); } catch (std::out_of_range&) { at = "OOR"; }
+    }
+    else if (t[0] == "atbig") {                                                     // SIGNEDNESS / MAGNITUDE: indices at the 2^31, 2^32, 2^63, SIZE_MAX boundaries
+      static const std::size_t big[] = { (std::size_t) 1 << 31, (std::size_t) 1 << 32, (std::size_t) 1 << 63, ~(std::size_t) 0, ~(std::size_t) 0 - 1, ((std::size_t) 1 << 63) + 1 };
+      std::size_t j = big[c11::num(t[2]) % 6]; const RV& cv = v; bool c1 = false;
+      try { at = std::to_string((int) v.at(j)); } catch (std::out_of_range&) { at = "OOR"; }
+      try { (void) cv.at(j); } catch (std::out_of_range&) { c1 = true; }
+      if (!c1) flags += "!catbig";
     }
     else { c11::step_done("UNKNOWN-OP"); continue; }
     mutable_checks<T, n>(V[0], flags); mutable_checks<T, n>(V[1], flags);
